@@ -52,6 +52,8 @@ def fresh(x):
 
         if isinstance(x, np.integer):
             return type(x)(int(x))
+        if isinstance(x, np.floating):
+            return type(x)(float(x))
     except Exception:
         pass
     if isinstance(x, bool):
